@@ -89,9 +89,9 @@ Lemma adr_exact f now (w : W) f' w' a tk fa l :
    f_pending f' = Nat.min (f_pending f) (length (w_rx w')) /\ ~ (l + slot_time (f_p f) < now) /\
    (w_rx w' = w_rx w \/ (w_rx w' = [] /\ w_rx w <> [])))
   \/ (* a telegram was received: reply delivered (UseToken) or token given up (ActiveIdle) *)
-  kind_of (f_state f') <> KAwaitDataResponse
+  (kind_of (f_state f') <> KAwaitDataResponse /\ exists t k, decode (w_rx w) = Ok (Accept t k))
   \/ (* slot time over: time-out callback, then do_use_token *)
-  ((exists c cl, w_calls w' = w_calls w ++ c :: cl) /\
+  ((exists cl, w_calls w' = w_calls w ++ CallHandleTimeout (f_next_app f) a :: cl) /\
    (kind_of (f_state f') = KAwaitDataResponse ->
     exists wire, w_tx w' = Some wire /\ f_lba f' = Some (now + dur (f_p f) (length wire)) /\
                  f_pending f' = Nat.min (f_pending f) (length (w_rx w')))).
@@ -101,7 +101,11 @@ Proof.
   destruct (nth_error (w_apps w) (f_next_app f)) as [app|]; [|discriminate H].
   destruct (receive_telegram (fun t => t) (w_rx w)) as [[rest received]| |] eqn:Er; cbn [bind] in H; try discriminate H.
   destruct received as [t|].
-  - right. left. destruct (is_valid_response (mark_rx f now) a t).
+  - right. left.
+    assert (Hdec : exists t0 k, decode (w_rx w) = Ok (Accept t0 k)).
+    { unfold receive_telegram in Er. destruct (decode (w_rx w)) as [[ | |t0 k]| |]; cbn [bind] in Er; try discriminate Er.
+      exists t0, k. reflexivity. }
+    split; [|exact Hdec]. clear Hdec. destruct (is_valid_response (mark_rx f now) a t).
     + destruct (a_rx ops app now _ a t) as [app'| |]; cbn [bind] in H; try discriminate H.
       match type of H with bind ?x _ = _ => destruct x as [[f2 w2]| |] eqn:E2 end; cbn [bind] in H; try discriminate H.
       apply trans_spec in E2. destruct E2 as (s' & Ht & -> & _).
@@ -142,7 +146,7 @@ Proof.
       destruct Hw2 as (T2 & R2 & C2).
       split.
       * pose proof (do_use_token_results A ops _ _ _ _ _ H) as (cl & Hc & _). rewrite C2 in Hc.
-        exists (CallHandleTimeout (f_next_app f) a), cl. rewrite Hc, <- app_assoc. reflexivity.
+        exists cl. rewrite Hc, <- app_assoc. reflexivity.
       * intros Hk. destruct (do_use_token_into_adr _ _ _ _ _ H T2 Hk) as (wire & T' & R' & P' & L' & Q').
         exists wire. split; [exact T'|]. split; [rewrite L', Q3, Q1, Q0; reflexivity|].
         rewrite P', P3, P1, P0, R', R2. reflexivity.
@@ -167,8 +171,8 @@ Lemma adr_poll f now busy rxb (apps : list A) f' o apps' calls a tk fa l :
    ((tx o = None /\ calls = [] /\ f_state f' = f_state f /\ f_lba f' = Some l1 /\
      f_pending f' = length (rx_left o) /\ ~ (l1 + slot_time (f_p f) < now) /\
      (rx_left o = rxb \/ (rx_left o = [] /\ rxb <> [])))
-    \/ kind_of (f_state f') <> KAwaitDataResponse
-    \/ (calls <> [] /\
+    \/ (kind_of (f_state f') <> KAwaitDataResponse /\ exists t k, decode rxb = Ok (Accept t k))
+    \/ ((exists cl, calls = CallHandleTimeout (f_next_app f) a :: cl) /\
         (kind_of (f_state f') = KAwaitDataResponse ->
          exists wire, tx o = Some wire /\ f_lba f' = Some (now + dur (f_p f) (length wire)) /\
                       f_pending f' = length (rx_left o))))).
@@ -196,22 +200,23 @@ Proof.
       set (l1 := if Nat.ltb (f_pending f) (length rxb) then now else l).
       assert (Hpre : exists f3 w3, C11Proofs.dispatch A ops f3 now w3 = Ok (f1, w1) /\
                 f_state f3 = f_state f /\ f_lba f3 = Some l1 /\ f_pending f3 = length rxb /\ f_p f3 = f_p f /\
-                w_tx w3 = None /\ w_rx w3 = rxb /\ w_calls w3 = []).
+                w_tx w3 = None /\ w_rx w3 = rxb /\ w_calls w3 = [] /\ f_next_app f3 = f_next_app f).
       { subst l1. destruct (Nat.ltb_spec (f_pending f) (length rxb)) as [Hlt|Hge].
         - eexists. eexists. split; [exact Hb|].
           destruct (mark_bus_activity_spec f now) as (ML & MP & MS & MQ & _). rewrite El in ML. cbn [gv] in ML.
-          cbn. rewrite MS, MQ, ML. repeat split; try reflexivity. f_equal. lia.
+          pose proof (keepf_mark_bus_activity f now) as (_ & KN & _).
+          cbn. rewrite MS, MQ, ML, KN. repeat split; try reflexivity. f_equal. lia.
         - eexists. eexists. split; [exact Hb|]. cbn. repeat split; try reflexivity; try assumption. lia. }
-      destruct Hpre as (f3 & w3 & Hd & S3 & L3 & P3 & Q3 & T3 & R3 & C3).
+      destruct Hpre as (f3 & w3 & Hd & S3 & L3 & P3 & Q3 & T3 & R3 & C3 & N3).
       unfold C11Proofs.dispatch in Hd. rewrite S3, Es in Hd. cbn [kind_of poll_dispatch] in Hd.
       assert (Es3 : f_state f3 = AwaitDataResponse a tk fa) by congruence.
-      destruct (adr_exact _ _ _ _ _ _ _ _ _ Hd T3 Es3 L3) as [(T' & C' & S' & L' & P' & Hne & Hrx)|[Hk|((c & cl & Hc) & Hadr)]].
+      destruct (adr_exact _ _ _ _ _ _ _ _ _ Hd T3 Es3 L3) as [(T' & C' & S' & L' & P' & Hne & Hrx)|[(Hk & Hdec)|((cl & Hc) & Hadr)]].
       * left. rewrite P3, R3 in *. rewrite Q3 in Hne.
         assert (Hlen : (length (w_rx w1) <= length rxb)%nat) by (destruct Hrx as [-> |(-> & _)]; cbn; lia).
         split; [exact T'|]. split; [congruence|]. split; [congruence|]. split; [exact L'|].
         split; [rewrite P'; lia|]. split; [exact Hne|exact Hrx].
-      * right. left. exact Hk.
-      * right. right. split; [rewrite Hc, C3; discriminate|]. intros Hk.
+      * right. left. split; [exact Hk|rewrite <- R3; exact Hdec].
+      * right. right. split; [exists cl; rewrite Hc, C3, N3; reflexivity|]. intros Hk.
         destruct (Hadr Hk) as (wire & T' & L' & P'). exists wire. split; [exact T'|]. split; [rewrite L', Q3; reflexivity|].
         rewrite P', P3.
         assert (Hsuf : (length (w_rx w1) <= length rxb)%nat).
@@ -398,12 +403,12 @@ Proof.
   destruct (adr_poll A ops _ _ _ _ _ _ _ _ _ _ _ _ _ E Es Hconn El Hpd) as [([Hb|Hb] & _)|(_ & Hl & Hcase)].
   - congruence.
   - rewrite (predicted_not_looks l El Hb) in Hlooks. discriminate Hlooks.
-  - cbv zeta in Hcase. destruct Hcase as [(_ & _ & _ & _ & _ & Hne & _)|[Hk|(Hc & _)]].
+  - cbv zeta in Hcase. destruct Hcase as [(_ & _ & _ & _ & _ & Hne & _)|[(Hk & _)|((cl & Hc) & _)]].
     + destruct (Nat.ltb_spec (f_pending f) (length (buf ++ nb))) as [Hun|_].
       * destruct (uncounted_happened l El Ht Hsp Hbusy Hl Hun); congruence.
       * rewrite Hp in Hne. lia.
     + apply Hk. destruct (f_state f'); try discriminate Hkk. reflexivity.
-    + apply Hc. exact Hcalls'.
+    + rewrite Hcalls' in Hc. discriminate Hc.
 Qed.
 
 (* (2) the relation is kept *)
@@ -442,7 +447,7 @@ Proof.
         destruct (Nat.ltb_spec (f_pending f) (length buf)) as [H1|H1]; [rewrite (Hsp H1); reflexivity|].
         rewrite Hg. replace (Nat.ltb (length buf) (length (buf ++ nb))) with true by (symmetry; apply Nat.ltb_lt; lia).
         apply orb_true_r.
-    + cbv zeta in Hcase. destruct Hcase as [(Etx & Hc & Hs' & El' & Hpd' & Hne & Hrl)|[Hk|(_ & Hadr)]].
+    + cbv zeta in Hcase. destruct Hcase as [(Etx & Hc & Hs' & El' & Hpd' & Hne & Hrl)|[(Hk & _)|(_ & Hadr)]].
       * assert (Hte : y_tx_end p s = None) by (unfold y_tx_end; rewrite Htx, Etx; reflexivity).
         unfold y_ref2, y_txend. rewrite Hte, Er1.
         eexists. exists r1. split; [exact El'|]. split; [reflexivity|]. split; [|split].
